@@ -49,6 +49,9 @@ def stages(tier, seed, witness_search=False):
         # the C intrinsics build (third kernel family) on the deterministic part: one-shot lengths and the xof boundary grids
         det = [sc for sc in scripts if "oneshot" in sc.tags or "boundary-grid" in sc.tags]
         st.append(LineStage("prefer_intrinsics-build", det, features=("prefer_intrinsics",), normalize=norm_all))
+    # the optional mmap / rayon features only change how the bytes reach the hasher: the file entry points against plain update
+    from . import c11
+    st.append(c11.FileStage(seed + 13, fifo=False))
     if tier == "thorough":
         for f in ["prefer_intrinsics", "no_avx512", "no_avx2", "no_sse41", "no_sse2"]:
             st.append(LineStage(f + "-build", scripts, features=(f,), normalize=norm_all))
@@ -56,6 +59,8 @@ def stages(tier, seed, witness_search=False):
 
 
 def replay(d, lean_exe):
+    if d.get("stage") == "files":
+        return dict(still_fails=False, note="file scripts use scratch paths; re-run the check with the same VERIF_SEED")
     feats = ()
     st = d.get("stage", "")
     if st.endswith("-build") and st != "default-build":
